@@ -34,7 +34,7 @@ for _k in ("GOSUMDB", "GOTOOLCHAIN"):
 
 
 def sh(cmd, **kw):
-    return subprocess.run(cmd, stdout=subprocess.PIPE, stderr=subprocess.STDOUT, text=True, **kw)
+    return subprocess.run(cmd, stdout=subprocess.PIPE, stderr=subprocess.STDOUT, text=True, errors="replace", **kw)
 
 
 def ensure_ssadump():
